@@ -77,7 +77,11 @@ META = {
         "R5: raw nodes are removed from / replaced in a tree only inside a deep copy made on every path, or by the security "
         "filter of the parsers under a condition that implies raw_enabled is false (read with a true default). "
         "R6: the enable_extensions set html_to_nodes reads is changed in place only between saving a copy and re-assigning that "
-        "copy in a finally block (figure-md's temporary html_image)."
+        "copy in a finally block (figure-md's temporary html_image). "
+        "R7: every call of html_to_nodes gets the GFM filter: it runs inside html_to_nodes (then every caller is covered), or - when it is "
+        "a helper outside html_to_nodes that some caller applies - every caller that hands over a token's content applies that helper under "
+        "gfm_only on every path to the call; a caller that passes the content as written while another caller filters is a violation "
+        "(other shapes: analysis error)."
     ),
     "not_decided": (
         "node-for-node equality with the directive spelling for all attribute values and bodies; what the docutils option "
@@ -361,6 +365,67 @@ def _raw_maker(cx: Ctx, fn: FunctionInfo, rep: Report) -> int | None:
         if isinstance(n, ast.Assign) and isinstance(n.targets[0], ast.Attribute) and n.targets[0].attr in ("source", "line"):
             rep.listed("C17.R1", f"{fn.fq}|stamp {n.targets[0].attr}", m.site(n), unparse(n))
     return fn.params.index(t.id)
+
+
+def _builds_raw(callee: FunctionInfo) -> bool:
+    return any(isinstance(c, ast.Call) and _resolves(callee.module, c.func, "docutils.nodes.raw") for c in callee.local_nodes())
+
+
+def _forwarder(cx: Ctx, callee: FunctionInfo):
+    """A plain function without a nodes.raw of its own whose every return is `[other nodes +] constructor(<one of its parameters>, ...)`
+    with that parameter never rebound and not used in the other summands: (constructor, index of the text parameter) - else None."""
+
+    def build():
+        if callee.is_lambda or callee.cls is not None or callee.parent_func is not None or _builds_raw(callee):
+            return None
+        rets = [n for n in callee.local_nodes() if isinstance(n, ast.Return)]
+        if not rets:
+            return None
+        found = set()
+        for r in rets:
+            if r.value is None:
+                return None
+            parts = _split_add(r.value)
+            hits = []
+            for p_ in parts:
+                if isinstance(p_, ast.Call) and dotted(p_.func):
+                    g = cx.corpus.find_function(callee.module.resolve(dotted(p_.func)))
+                    if g is not None and not g.is_lambda and _builds_raw(g):
+                        hits.append((p_, g))
+            if len(hits) != 1:
+                return None
+            call, g = hits[0]
+            raws = [n for n in g.local_nodes() if isinstance(n, ast.Call) and _resolves(g.module, n.func, "docutils.nodes.raw")]
+            t = arg_or_kw(raws[0], 1, "text") if len(raws) == 1 else None
+            if not (isinstance(t, ast.Name) and t.id in g.params):
+                return None
+            a = arg_or_kw(call, g.params.index(t.id), t.id)
+            if not (isinstance(a, ast.Name) and a.id in callee.params):
+                return None
+            if any(isinstance(x, ast.Name) and x.id == a.id for o in parts if o is not call for x in ast.walk(o)):
+                return None
+            found.add((g.fq, a.id))
+        if len(found) != 1:
+            return None
+        gfq, name = next(iter(found))
+        if any(isinstance(n, ast.Name) and n.id == name and isinstance(n.ctx, ast.Store) for n in callee.local_nodes()):
+            return None
+        g = next(f for f in cx.corpus.all_functions() if f.fq == gfq)
+        return g, callee.params.index(name)
+
+    return cx.corpus.cache(f"c17-forwarder|{callee.fq}", build)
+
+
+def _emits_raw(cx: Ctx, callee: FunctionInfo) -> bool:
+    """the callee puts text into a raw node: a pass-through constructor, or a helper that forwards one of its parameters to one"""
+    return _builds_raw(callee) or _forwarder(cx, callee) is not None
+
+
+def _emitted_text_arg(cx: Ctx, call: ast.Call, callee: FunctionInfo | None):
+    fw = _forwarder(cx, callee) if callee is not None else None
+    if fw is not None:
+        return arg_or_kw(call, fw[1], callee.params[fw[1]])
+    return call.args[0] if call.args else None
 
 
 def _is_the_raw(e: ast.expr, raw: ast.Call, fn: FunctionInfo) -> bool:
@@ -727,14 +792,14 @@ def r1_pass_through(corpus: Corpus, rep: Report, tier: str):
             for p_ in parts:
                 if isinstance(p_, ast.Call) and dotted(p_.func) and p_ is not cx.delegate:
                     callee = corpus.find_function(m.resolve(dotted(p_.func)))
-                    if callee is not None and any(isinstance(c, ast.Call) and _resolves(callee.module, c.func, "docutils.nodes.raw") for c in callee.local_nodes()):
+                    if callee is not None and _emits_raw(cx, callee):
                         pts.append(p_)
             if not pts and not any(p_ is cx.delegate for p_ in parts):
                 rep.violation("C17.R1", k, m.site(r), f"`{short(r, 60)}` ({_where(r)}) in the wrapper returns without the raw node: on this path the HTML is dropped from the document instead of passing through (e.g. when the warning that accompanies it is suppressed)")
                 continue
             if len(pts) != 1 or any(p_ is cx.delegate for p_ in parts):
                 raise Unsupported(f"wrapper return not understood: {short(r, 70)}")
-            a0 = pts[0].args[0] if pts[0].args else None
+            a0 = _emitted_text_arg(cx, pts[0], corpus.find_function(m.resolve(dotted(pts[0].func))))
             efl = Filter(cx, ent, cx.entry_text)
             efvar = efl.target if efl.stmt is not None else None
             if isinstance(a0, ast.Name) and (a0.id == cx.entry_text or (efvar is not None and a0.id == efvar and all((isinstance(d, ast.Name) and d.id == cx.entry_text) or d is efl.call or (isinstance(d, ast.Tuple) and _stmt_of_safe(cx, d, efl.cfg) is efl.stmt) for d in cx.defs_in(ent, efvar)))):
@@ -769,7 +834,17 @@ def r1_pass_through(corpus: Corpus, rep: Report, tier: str):
         for p_ in parts:
             if isinstance(p_, ast.Call) and dotted(p_.func):
                 callee = corpus.find_function(m.resolve(dotted(p_.func)))
-                if callee is not None and any(isinstance(c, ast.Call) and _resolves(callee.module, c.func, "docutils.nodes.raw") for c in callee.local_nodes()):
+                if callee is not None and _emits_raw(cx, callee):
+                    fw = _forwarder(cx, callee)
+                    if fw is not None:
+                        # a helper that returns [its own nodes +] constructor(<its text parameter>, ...): the constructor is judged once,
+                        # the helper stands for it with its own text parameter
+                        if fw[0].fq not in makers:
+                            rep.saw_function(fw[0].fq)
+                            makers[fw[0].fq] = _raw_maker(cx, fw[0], rep)
+                        if callee.fq not in makers:
+                            rep.saw_function(callee.fq)
+                            makers[callee.fq] = fw[1] if makers[fw[0].fq] is not None else None
                     if callee.fq not in makers:
                         rep.saw_function(callee.fq)
                         makers[callee.fq] = _raw_maker(cx, callee, rep)
@@ -1497,6 +1572,27 @@ def _end_tags_from_source(cx: Ctx, rep: Report, level, funcs) -> None:
 def _judge_element_strip(cx: Ctx, rep: Report, meth: FunctionInfo) -> None:
     pm = meth.module
     comps = [n for n in meth.local_nodes() if isinstance(n, (ast.ListComp, ast.GeneratorExp)) and n.generators and n.generators[0].ifs]
+    if not comps:
+        # the same filter written as a loop: `for v in <children>: if D: continue; kept.append(v)` or `for v in ..: if K: kept.append(v)`
+        loops = []
+        for lp in meth.local_nodes():
+            if isinstance(lp, ast.For) and isinstance(lp.target, ast.Name) and not lp.orelse:
+                v = lp.target.id
+                apps = [n for n in ast.walk(lp) if isinstance(n, ast.Call) and isinstance(n.func, ast.Attribute) and n.func.attr == "append" and len(n.args) == 1 and isinstance(n.args[0], ast.Name) and n.args[0].id == v]
+                if apps:
+                    loops.append((lp, v, apps))
+        if len(loops) == 1 and len(loops[0][2]) == 1:
+            lp, v, (app,) = loops[0]
+            body = lp.body
+            keep = None
+            if len(body) == 2 and isinstance(body[0], ast.If) and not body[0].orelse and len(body[0].body) == 1 and isinstance(body[0].body[0], ast.Continue) and isinstance(body[1], ast.Expr) and body[1].value is app:
+                keep = ast.UnaryOp(op=ast.Not(), operand=body[0].test)
+            elif len(body) == 1 and isinstance(body[0], ast.If) and not body[0].orelse and len(body[0].body) == 1 and isinstance(body[0].body[0], ast.Expr) and body[0].body[0].value is app:
+                keep = body[0].test
+            if keep is None:
+                raise Unsupported(f"{meth.qualname}: filtering loop over the children not understood")
+            _judge_drop_filter(cx, rep, keep, v, f"{meth.fq}|discards only white-space text", pm.site(body[0].test), pm, "strip()")
+            return
     if len(comps) != 1 or len(comps[0].generators) != 1 or len(comps[0].generators[0].ifs) != 1 or not isinstance(comps[0].generators[0].target, ast.Name):
         raise Unsupported(f"{meth.qualname}: expected one filtering comprehension over the children")
     comp = comps[0]
@@ -2308,7 +2404,7 @@ def r2_gfm_filter(corpus: Corpus, rep: Report, tier: str):
             p_ = parent(n)
             if isinstance(p_, ast.Call) and n in p_.args and dotted(p_.func) and not _is_tokenizer_call(cx, p_) and p_ is not flt.call and p_ is not cx.delegate:
                 callee = corpus.find_function(m.resolve(dotted(p_.func)))
-                if callee is not None and any(isinstance(c, ast.Call) and _resolves(callee.module, c.func, "docutils.nodes.raw") for c in callee.local_nodes()):
+                if callee is not None and _emits_raw(cx, callee):
                     unfiltered_emitted.append(n)
                 elif callee is None or not callee.module.name.endswith("parse_html"):
                     raise Unsupported(f"cannot tell whether `{short(p_, 50)}` emits the unfiltered text")
@@ -2337,9 +2433,9 @@ def r2_gfm_filter(corpus: Corpus, rep: Report, tier: str):
                 if not (isinstance(part, ast.Call) and dotted(part.func)):
                     continue
                 callee = corpus.find_function(cm.resolve(dotted(part.func)))
-                if callee is None or not any(isinstance(c, ast.Call) and _resolves(callee.module, c.func, "docutils.nodes.raw") for c in callee.local_nodes()):
+                if callee is None or not _emits_raw(cx, callee):
                     continue
-                a0 = part.args[0] if part.args else None
+                a0 = _emitted_text_arg(cx, part, callee)
                 k = f"{core.fq}|emits the filtered copy|{short(r, 90)}|{_where(r)}"
                 role = roles.get(a0.id) if isinstance(a0, ast.Name) else None
                 if role == "filtered":
@@ -2356,7 +2452,7 @@ def r2_gfm_filter(corpus: Corpus, rep: Report, tier: str):
             for part in _split_add(r.value):
                 if isinstance(part, ast.Call) and part is not cx.delegate and dotted(part.func):
                     callee = corpus.find_function(cx.entry.module.resolve(dotted(part.func)))
-                    if callee is not None and any(isinstance(c, ast.Call) and _resolves(callee.module, c.func, "docutils.nodes.raw") for c in callee.local_nodes()) and any(isinstance(x, ast.Name) and x.id == cx.entry_text for a_ in part.args for x in ast.walk(a_)):
+                    if callee is not None and _emits_raw(cx, callee) and any(isinstance(x, ast.Name) and x.id == cx.entry_text for a_ in part.args for x in ast.walk(a_)):
                         emits = True
             k = f"{cx.entry.fq}|filter precedes|{short(r, 90)}|{_where(r)}"
             if emits:
@@ -3424,7 +3520,129 @@ def r6_extension_switch_restored(corpus: Corpus, rep: Report, tier: str):
         rep.ok("C17.R6", "no in-place change of enable_extensions in the package", "myst_parser", "nothing to bracket")
 
 
-RULES = [r1_pass_through, r2_gfm_filter, r3_whitelist_subset, r4_quoting, r5_raw_nodes_survive, r6_extension_switch_restored]
+def _gfm_filter_sites(corpus: Corpus) -> list[tuple[FunctionInfo, ast.Call]]:
+    """Substitutions with a module-level compiled regex whose pattern names every tag of the GFM disallowed list, anywhere in the package."""
+    out = []
+    for f in corpus.all_functions():
+        m = f.module
+        host = f
+        while host.is_lambda and host.parent_func is not None:
+            host = host.parent_func
+        for n in f.local_nodes():
+            if not (isinstance(n, ast.Call) and isinstance(n.func, ast.Attribute) and n.func.attr in ("sub", "subn") and isinstance(n.func.value, ast.Name)):
+                continue
+            cv = m.const_nodes.get(n.func.value.id)
+            if not (isinstance(cv, ast.Call) and _resolves(m, cv.func, "re.compile") and cv.args):
+                continue
+            try:
+                pat = m.eval_const(cv.args[0])
+            except Unsupported:
+                continue
+            if isinstance(pat, str) and all(t in pat.lower() for t in GFM_DISALLOWED):
+                out.append((host, n))
+    return out
+
+
+@rule("C17.R7")
+def r7_filter_covers_every_caller(corpus: Corpus, rep: Report, tier: str):
+    rep.rule("C17.R7", "the GFM tag filter is applied to the text of every html_to_nodes call: inside html_to_nodes, or - when it is a helper the callers apply - by each caller that hands over token content")
+    from ..callgraph import get_callgraph
+
+    cx = _ctx(corpus)
+    flt = _filter(corpus)
+    dotted_h2n = f"{cx.entry.module.name}.{cx.entry.qualname}"
+    callers = []
+    for f in corpus.all_functions():
+        if f.is_lambda or f.fq in (cx.fi.fq, cx.entry.fq):
+            continue
+        for c in f.local_nodes():
+            if isinstance(c, ast.Call) and dotted(c.func) and f.module.resolve(dotted(c.func)) == dotted_h2n:
+                callers.append((f, c))
+    if not callers:
+        raise AnchorMissing("no call of html_to_nodes in the package")
+    if flt.stmt is not None:
+        # the filter runs inside html_to_nodes (R2 judges where): whoever calls it is covered
+        for f, c in callers:
+            rep.ok("C17.R7", f"{f.fq}|GFM filter covers the text handed to html_to_nodes", f.module.site(c), f"the filter runs inside {flt.fn.name}")
+        rep.expect_min("C17.R7", 2, "the html_block and the html_inline handler on the pinned tree")
+        return
+    sites = _gfm_filter_sites(corpus)
+    hosts = {h.fq: h for h, _ in sites}
+    if not hosts:
+        raise AnchorMissing("no GFM tag filter (substitution with a regex over the nine disallowed tags) in html_to_nodes or anywhere else")
+    # what html_to_nodes runs itself: its own module and the HTML tokenizer (calls back into the renderer are not followed)
+    inside = get_callgraph(corpus).reachable([cx.entry], stop=lambda g: g.module is not cx.entry.module and not g.module.name.endswith("parse_html"))
+    if any(fq in inside for fq in hosts):
+        raise Unsupported("the GFM tag filter lives in a function html_to_nodes calls: " + ", ".join(sorted(fq for fq in hosts if fq in inside)))
+
+    def applies(f: FunctionInfo) -> list[ast.Call]:
+        if f.fq in hosts:
+            return [n for h, n in sites if h.fq == f.fq]
+        out = []
+        for n in f.local_nodes():
+            if not isinstance(n, ast.Call):
+                continue
+            d = dotted(n.func)
+            g = corpus.find_function(f.module.resolve(d)) if d else None
+            if g is None and isinstance(n.func, ast.Attribute) and dotted(n.func.value) == "self" and f.cls is not None:
+                g = corpus.lookup_method(f.cls, n.func.attr)
+            if g is not None and g.fq in hosts:
+                out.append(n)
+        return out
+
+    applied = {f.fq: applies(f) for f, _ in callers}
+    if not any(applied.values()):
+        raise Unsupported("the GFM tag filter is neither in html_to_nodes nor applied by any function that calls it: " + ", ".join(sorted(hosts)))
+    helper = ", ".join(sorted(h.name for h in hosts.values()))
+    for f, c in callers:
+        k = f"{f.fq}|GFM filter covers the text handed to html_to_nodes"
+        site = f.module.site(c)
+        a = c.args[0] if c.args else kwarg(c, cx.entry_text)
+        cfg = get_cfg(f)
+        cst = cfg.stmt_of(c)
+        if applied[f.fq]:
+            fsts = [cfg.stmt_of(n) for n in applied[f.fq]]
+            if not isinstance(a, ast.Name):
+                rep.error("C17.R7", f"{f.qualname} applies {helper} but hands `{short(a, 40) if a is not None else '?'}` to html_to_nodes: cannot relate the two")
+                continue
+            stored = [st for st in fsts if isinstance(st, ast.Assign) and any(isinstance(t, ast.Name) and t.id == a.id or isinstance(t, ast.Tuple) and t.elts and isinstance(t.elts[0], ast.Name) and t.elts[0].id == a.id for t in st.targets)]
+            if len(stored) != 1 or len(fsts) != 1:
+                rep.error("C17.R7", f"{f.qualname}: the result of {helper} is not stored in `{a.id}` by one plain assignment")
+                continue
+            fst = stored[0]
+            p = parent(fst)
+            branch = None
+            if isinstance(p, ast.If) and fst in p.body and not p.orelse and parent(p) is f.node:
+                t = p.test
+                d = dotted(t) or ""
+                if isinstance(t, ast.Name):
+                    defs = cx.defs_in(f, t.id)
+                    d = (dotted(defs[0]) or "") if len(defs) == 1 and isinstance(defs[0], ast.expr) else ""
+                if not d.endswith(".gfm_only"):
+                    rep.error("C17.R7", f"{f.qualname}: {helper} is applied under `{short(t, 50)}`, not under the gfm_only setting alone")
+                    continue
+                branch = ("F", p)
+            elif p is not f.node:
+                rep.error("C17.R7", f"{f.qualname}: {helper} is applied inside `{short(p, 40)}`")
+                continue
+            if cfg.paths_avoiding("ENTRY", cst, lambda x: x is fst or (branch is not None and x == branch)):
+                rep.violation("C17.R7", k, site, f"{f.qualname} reaches `{short(c, 60)}` in GFM mode on a path that skips {helper}: html_to_nodes no longer filters, so disallowed tags such as <script> reach the output on that path")
+            else:
+                rep.ok("C17.R7", k, site, f"{helper} applied under gfm_only on every path to the call")
+            continue
+        # this caller never applies the filter: what does it hand over?
+        vals = [a]
+        if isinstance(a, ast.Name) and a.id not in f.params:
+            vals = cx.defs_in(f, a.id)
+        as_written = bool(vals) and all(isinstance(v, ast.Attribute) and v.attr == "content" and isinstance(v.value, ast.Name) and v.value.id in f.params for v in vals)
+        if as_written:
+            rep.violation("C17.R7", k, site, f"{f.qualname} hands `{short(vals[0], 40)}` - the token content as written - to html_to_nodes without applying {helper}: the GFM tag filter no longer runs inside html_to_nodes (other callers apply it themselves), so in gfm_only mode disallowed tags such as `<script>` / `<iframe>` in this kind of token reach the output as live raw HTML")
+        else:
+            rep.error("C17.R7", f"{f.qualname} calls html_to_nodes with `{short(a, 40) if a is not None else '?'}` and never applies {helper}: cannot tell whether that text was filtered before")
+    rep.expect_min("C17.R7", 1, "callers of html_to_nodes")
+
+
+RULES = [r1_pass_through, r2_gfm_filter, r3_whitelist_subset, r4_quoting, r5_raw_nodes_survive, r6_extension_switch_restored, r7_filter_covers_every_caller]
 
 
 def _move_block_after(src: str, block: ast.stmt, anchor: ast.stmt) -> str:
@@ -3890,4 +4108,28 @@ def mutants(corpus: Corpus):
             add("c17-tokenizer-lazily-created-global", "C17.R1", splice(tk.module.src, asg, f"global _PARSER\n{ind}if _PARSER is None:\n{ind}    _PARSER = {ctor}\n{ind}{nm} = _PARSER").replace(f"def {tk.name}(", f"_PARSER = None\n\n\ndef {tk.name}(", 1), "parser state", rel_=tk.module.rel)
         else:
             out.append(("c17-tokenizer-cache-mutants", "tokenize_html does not assign a freshly constructed parser to a local"))
+    # ---- R7: the filter moved out of html_to_nodes into a helper that only one of the two handlers applies ----
+    hm = flt.fn.module if flt.stmt is not None else None
+    imp = next((n for n in cx.base.tree.body if isinstance(n, ast.ImportFrom) and any(a_.name == cx.entry.name and a_.asname is None for a_ in n.names)), None)
+    imp_src = ast.get_source_segment(cx.base.src, imp) if imp is not None else None
+    if hm is not None and flt.if_stmt is not None and flt.repl is not None and imp_src is not None and "(" not in imp_src and "gfm_tag_filter_" not in hm.src:
+        h_src = splice(hm.src, flt.if_stmt, "pass").replace(
+            f"def {cx.entry.name}(",
+            f"def gfm_tag_filter_(text):\n    return {flt.regex_name}.sub({ast.get_source_segment(hm.src, flt.repl)}, text)\n\n\ndef {cx.entry.name}(",
+            1,
+        )
+        for adapted, other in (("render_html_block", "render_html_inline"), ("render_html_inline", "render_html_block")):
+            meth = corpus.lookup_method(cx.renderer_cls, adapted)
+            call = find_node(meth, lambda n: isinstance(n, ast.Call) and dotted(n.func) == cx.entry.name and n.args) if meth is not None and meth.module is cx.base else None
+            st = find_stmt(meth, lambda s_: call is not None and any(x is call for x in ast.walk(s_))) if call is not None else None
+            if st is None or st not in meth.node.body:
+                out.append((f"c17-gfm-filter-helper-only-in-{adapted}", "handler does not call html_to_nodes in a top-level statement"))
+                continue
+            bsrc = cx.base.src
+            a_src, st_src, ind = ast.get_source_segment(bsrc, call.args[0]), ast.get_source_segment(bsrc, st), " " * st.col_offset
+            b2 = splice(bsrc, st, f"content_ = {a_src}\n{ind}if {meth.params[0]}.md_config.gfm_only:\n{ind}    content_ = gfm_tag_filter_(content_)\n{ind}" + st_src.replace(a_src, "content_", 1))
+            b2 = splice(b2, imp, imp_src + ", gfm_tag_filter_")
+            out.append(Mutant(f"c17-gfm-filter-helper-only-in-{adapted}", "C17.R7", hm.rel, h_src, expect=other, more={cx.base.rel: b2}, note="seed class: filter became the callers' duty, one caller forgotten"))
+    else:
+        out.append(("c17-gfm-filter-helper-mutants", "GFM filter statement / html_to_nodes import not in the expected shape"))
     return out
